@@ -45,6 +45,8 @@ def native_base(it, cls):
     ext = it.prog.ext_bases(cls)
     if 'bitarray' in ext:
         return BA()
+    if 'BytesIO' in ext:
+        return BytesIOModel(it)
     return None
 
 
@@ -522,6 +524,8 @@ def ba_methods(it, ba, a, inst):
 def native_attr(it, nat, a, inst):
     if isinstance(nat, BA):
         return ba_methods(it, nat, a, inst)
+    if isinstance(nat, BytesIOModel):
+        return nat.abs_attr(it, a, None)
     return None
 
 
@@ -1346,6 +1350,13 @@ class BytesIOModel:
                 self.parts.append(b)
                 return ln
             return Native(write, 'BytesIO.write')
+        if a == 'writelines':
+            def writelines(it_, args, kw, node):
+                w = self.abs_attr(it_, 'write', node)
+                for piece in it_.pull_iter(args[0], node):
+                    w.fn(it_, [piece], {}, node)
+                return K(None)
+            return Native(writelines, 'BytesIO.writelines')
         if a in ('getvalue', 'getbuffer', 'read'):
             if a == 'read' and self.pos_known:
                 raise Fail('BytesIO.read after writes (position at the end) is not modelled')
@@ -2336,6 +2347,17 @@ def builtin(it, name, args, kw, n):
             d.d[key] = args[1] if len(args) > 1 else K(None)
             d.keyobj[key] = x
         return d
+    if name == 'iter' and len(args) == 2:
+        # iter(callable, sentinel): calls until the result equals the sentinel
+        f, sentinel = args
+
+        def until():
+            while True:
+                x = it.call(f, [], {}, n)
+                if it.truth(it.cmp(ast.Eq(), x, sentinel, n), n):
+                    return
+                yield x
+        return IterV(gen=until())
     if name == 'iter' and args:
         if isinstance(args[0], IterV):
             return args[0]
